@@ -155,6 +155,12 @@ func (c *c16) Run(cs core.Case) core.Result {
 		k := ((p.LenA / s) + 1) / 2 * s
 		set.Files = append(set.Files, scen.File{Name: "same header.bin", Data: append(append([]byte(nil), set.Files[0].Data[:k]...), scen.GenData(rng, "random", s+1+rng.Intn(s), s)...)})
 	}
+	// a protected file shorter than one slice (its only slice is padded)
+	tiny := -1
+	if s >= 8 {
+		tiny = len(set.Files)
+		set.Files = append(set.Files, scen.File{Name: "tiny.bin", Data: scen.GenData(rng, "random", 2+rng.Intn(s/2), s)})
+	}
 	// History: the same process first scans a damaged set with a DIFFERENT
 	// slice size, so any state that survives between operations (cached
 	// tables, pools) would be exercised.
@@ -354,6 +360,35 @@ func (c *c16) Run(cs core.Case) core.Result {
 			}
 			judge("insert-crc-twin-of-slice", pos, s, []scen.Op{{Kind: "insert", A: 0, Pos: pos, G: g}}, touchedByFormula("insert", p.LenA, s, pos, s))
 		}
+	}
+	// bytes put in front of a file that is shorter than a slice (it stays
+	// within one slice or grows beyond it)
+	if tiny >= 0 {
+		lt := len(set.Files[tiny].Data)
+		for _, k := range []int{1, 2, 3, s - lt - 1, s - lt, s - lt + 1, s, s + 1} {
+			if k > 0 {
+				judge("tiny-file-shifted", 0, k, []scen.Op{{Kind: "insert", A: tiny, Pos: 0, G: scen.Garbage(rng, k)}}, nil)
+			}
+		}
+	}
+	// two edits that compensate each other: the length stays what it was, the
+	// slices between the edits are shifted
+	for k := 0; k < 16 && p.LenA > 3*s; k++ {
+		l := []int{1, 2, 3, s - 1, s, s + 1}[rng.Intn(6)]
+		p1 := rng.Intn(s)
+		if k%4 == 0 {
+			p1 = 0
+		}
+		if p1+l >= p.LenA-s {
+			continue
+		}
+		rest := p.LenA - l
+		p2 := p1 + s + rng.Intn(rest-p1-s+1)
+		if k%2 == 0 {
+			p2 = rest // filled up at the end
+		}
+		judge("cut-then-insert-same-length", p1, l, []scen.Op{{Kind: "cut", A: 0, Pos: p1, Len: l}, {Kind: "insert", A: 0, Pos: p2, G: scen.Garbage(rng, l)}}, nil)
+		judge("insert-then-cut-same-length", p1, l, []scen.Op{{Kind: "insert", A: 0, Pos: p1, G: scen.Garbage(rng, l)}, {Kind: "cut", A: 0, Pos: minInt(p2+l, p.LenA), Len: l}}, nil)
 	}
 	// content under another protected name
 	judge("B-content-appended-to-A", 0, 0, []scen.Op{{Kind: "append", A: 0, G: set.Files[1].Data}}, nil)
